@@ -38,49 +38,8 @@ func runE0(c *Ctx, s *Sink) {
 		if recv == nil || !strings.HasSuffix(namedTypeName(derefType(recv.Type())), "/pkg/obiseq.BioSequenceSlice") {
 			return
 		}
-		// constant-index reads of the receiver
-		type access struct {
-			ix  *ast.IndexExpr
-			k   int64
-			pre []ast.Expr // conjuncts evaluated before it in the same expression
-		}
-		var accs []access
-		var stack []ast.Node
-		ast.Inspect(fd.Body, func(n ast.Node) bool {
-			if n == nil {
-				stack = stack[:len(stack)-1]
-				return true
-			}
-			stack = append(stack, n)
-			ix, ok := n.(*ast.IndexExpr)
-			if !ok {
-				return true
-			}
-			base := ast.Unparen(ix.X)
-			if st, ok := base.(*ast.StarExpr); ok {
-				base = ast.Unparen(st.X)
-			}
-			id, ok := base.(*ast.Ident)
-			if !ok || info.ObjectOf(id) != recv {
-				return true
-			}
-			k, isC := constInt(info, ix.Index)
-			if !isC {
-				return true
-			}
-			var pre []ast.Expr
-			for j := len(stack) - 2; j >= 0; j-- {
-				if b, ok := stack[j].(*ast.BinaryExpr); ok && b.Op == token.LAND && ix.Pos() >= b.Y.Pos() && ix.End() <= b.Y.End() {
-					pre = append(pre, b.X)
-				}
-				if _, ok := stack[j].(ast.Stmt); ok {
-					break
-				}
-			}
-			accs = append(accs, access{ix, k, pre})
-			return true
-		})
-		if len(accs) == 0 {
+		nacc, badPos := constIndexGuarded(info, fd.Body, recv, 0)
+		if nacc == 0 {
 			return
 		}
 		name := funcName(p, fd)
@@ -88,51 +47,150 @@ func runE0(c *Ctx, s *Sink) {
 			s.Pass(nil, name+":first-element-guarded", fd.Pos(), "exempt: "+why)
 			return
 		}
-		lenAtom := func(env *linEnv) linForm {
-			// |*s| or |s| according to the receiver kind
-			var e ast.Expr = ast.NewIdent(recv.Name())
-			if _, isPtr := recv.Type().(*types.Pointer); isPtr {
-				e = &ast.StarExpr{X: e}
-			}
-			a := "|" + types.ExprString(e) + "|"
-			env.atoms[a], env.lens[a] = true, true
-			return lfAtom(a)
-		}
-		env := &linEnv{info: info, vars: map[types.Object]linForm{}, defs: map[types.Object][]ast.Expr{}, atoms: map[string]bool{}, lens: map[string]bool{}, elems: map[string]linForm{}}
-		okAll, seen := true, map[*ast.IndexExpr]bool{}
-		var badPos token.Pos
-		linWalk([]linPath{{env: env}}, fd.Body.List, func(pth linPath, st ast.Stmt) {
-			for _, a := range accs {
-				if a.ix.Pos() < st.Pos() || a.ix.End() > st.End() {
-					continue
-				}
-				if _, isFor := st.(*ast.ForStmt); isFor {
-					continue // visited again inside the body
-				}
-				seen[a.ix] = true
-				pth.env.cur = pth.sys
-				sys := pth.known()
-				for _, pe := range a.pre {
-					if cs := pth.env.cond(pe, false); len(cs) == 1 {
-						sys = append(append(linSys{}, sys...), cs[0]...)
-					}
-				}
-				if !sys.entails(linLE(lfConst(a.k+1), lenAtom(pth.env))) {
-					okAll = false
-					badPos = a.ix.Pos()
-				}
-			}
-		})
-		for _, a := range accs {
-			if !seen[a.ix] {
-				okAll, badPos = false, a.ix.Pos()
-			}
-		}
+		okAll := !badPos.IsValid()
 		key := name + ":first-element-guarded"
 		if okAll {
-			s.Pass(nil, key, fd.Pos(), fmt.Sprintf("%d constant-index read(s) of the receiver, each where its length exceeds the index", len(accs)))
+			s.Pass(nil, key, fd.Pos(), fmt.Sprintf("%d constant-index read(s) of the receiver, each where its length exceeds the index", nacc))
 		} else {
 			s.Fail(nil, key, badPos, "an element of the receiver is read at a constant index without a test of its length: on a slice without any record the method panics (index out of range [0] with length 0) — IsPaired() is called by IBatchOver on the whole data, obiclean on an empty file dies instead of writing an empty result")
 		}
+	})
+}
+
+// constIndexGuarded: every read of target (or *target) at a constant index >= minIdx in the body lies where the length of
+// target is known to exceed the index — by linear arithmetic over the len() tests of the enclosing branches and of the
+// conjunctions to the left of the read. Returns the number of reads and the position of an unguarded one.
+func constIndexGuarded(info *types.Info, body *ast.BlockStmt, recv types.Object, minIdx int64) (int, token.Pos) {
+	type access struct {
+		ix  *ast.IndexExpr
+		k   int64
+		pre []ast.Expr // conjuncts evaluated before it in the same expression
+	}
+	var accs []access
+	var stack []ast.Node
+	ast.Inspect(body, func(n ast.Node) bool {
+		if n == nil {
+			stack = stack[:len(stack)-1]
+			return true
+		}
+		stack = append(stack, n)
+		ix, ok := n.(*ast.IndexExpr)
+		if !ok {
+			return true
+		}
+		base := ast.Unparen(ix.X)
+		if st, ok := base.(*ast.StarExpr); ok {
+			base = ast.Unparen(st.X)
+		}
+		id, ok := base.(*ast.Ident)
+		if !ok || info.ObjectOf(id) != recv {
+			return true
+		}
+		k, isC := constInt(info, ix.Index)
+		if !isC || k < minIdx {
+			return true
+		}
+		var pre []ast.Expr
+		for j := len(stack) - 2; j >= 0; j-- {
+			if b, ok := stack[j].(*ast.BinaryExpr); ok && b.Op == token.LAND && ix.Pos() >= b.Y.Pos() && ix.End() <= b.Y.End() {
+				pre = append(pre, b.X)
+			}
+			if _, ok := stack[j].(ast.Stmt); ok {
+				break
+			}
+		}
+		accs = append(accs, access{ix, k, pre})
+		return true
+	})
+	if len(accs) == 0 {
+		return 0, token.NoPos
+	}
+	lenAtom := func(env *linEnv) linForm {
+		var e ast.Expr = ast.NewIdent(recv.Name())
+		if _, isPtr := recv.Type().(*types.Pointer); isPtr {
+			e = &ast.StarExpr{X: e}
+		}
+		a := "|" + types.ExprString(e) + "|"
+		env.atoms[a], env.lens[a] = true, true
+		return lfAtom(a)
+	}
+	env := &linEnv{info: info, vars: map[types.Object]linForm{}, defs: map[types.Object][]ast.Expr{}, atoms: map[string]bool{}, lens: map[string]bool{}, elems: map[string]linForm{}}
+	seen := map[*ast.IndexExpr]bool{}
+	badPos := token.NoPos
+	judge := func(pth linPath, from, to token.Pos) {
+		for _, a := range accs {
+			if a.ix.Pos() < from || a.ix.End() > to {
+				continue
+			}
+			seen[a.ix] = true
+			pth.env.cur = pth.sys
+			sys := pth.known()
+			for _, pe := range a.pre {
+				if cs := pth.env.cond(pe, false); len(cs) == 1 {
+					sys = append(append(linSys{}, sys...), cs[0]...)
+				}
+			}
+			if !sys.entails(linLE(lfConst(a.k+1), lenAtom(pth.env))) {
+				badPos = a.ix.Pos()
+			}
+		}
+	}
+	// the reads standing in the condition of an if are judged with the state of the path before the branch
+	env.onCond = func(pth linPath, cond ast.Expr) { judge(pth, cond.Pos(), cond.End()) }
+	linWalk([]linPath{{env: env}}, body.List, func(pth linPath, st ast.Stmt) {
+		if _, isFor := st.(*ast.ForStmt); isFor {
+			return // visited again inside the body
+		}
+		judge(pth, st.Pos(), st.End())
+	})
+	for _, a := range accs {
+		if !seen[a.ix] {
+			badPos = a.ix.Pos()
+		}
+	}
+	return len(accs), badPos
+}
+
+func init() {
+	register(&Rule{
+		ID: "SX", Props: []string{"C16", "C03"}, Min: 1,
+		Doc: `the names of the output files are built for every name the user may give: in pkg/obitools/obiconvert, an element of index 1 or more of the result of strings.Split / strings.SplitN is read
+only where the length of that result is known to exceed the index (same decision procedure as E0). SplitN(name, ".", 2) has one element for a name without a dot: BuildPairedFileNames read
+parts[1] unconditionally, so 'obigrep --paired-with r.fastq -o outnoext' (or --save-discarded disc) died with 'index out of range [1] with length 1' after the reads had been processed.`,
+		Run: func(c *Ctx, s *Sink) {
+			c.EachFunc([]string{"pkg/obitools/obiconvert"}, func(p *packages.Package, fd *ast.FuncDecl) {
+				info := p.TypesInfo
+				ast.Inspect(fd.Body, func(n ast.Node) bool {
+					as, ok := n.(*ast.AssignStmt)
+					if !ok || len(as.Lhs) != 1 || len(as.Rhs) != 1 {
+						return true
+					}
+					call, ok := ast.Unparen(as.Rhs[0]).(*ast.CallExpr)
+					if !ok {
+						return true
+					}
+					switch fullName(callee(info, call)) {
+					case "strings.Split", "strings.SplitN", "strings.Fields":
+					default:
+						return true
+					}
+					parts := rootObj(info, as.Lhs[0])
+					if parts == nil {
+						return true
+					}
+					nacc, bad := constIndexGuarded(info, fd.Body, parts, 1)
+					if nacc == 0 {
+						return true
+					}
+					key := funcName(p, fd) + ":" + parts.Name() + ":split-element-guarded"
+					if bad.IsValid() {
+						s.Fail(nil, key, bad, "an element beyond the first of a split name is read without a test of the number of elements: a name without the separator gives one element — 'obigrep --paired-with r.fastq -o outnoext f.fastq' panics (index out of range [1] with length 1) in BuildPairedFileNames")
+					} else {
+						s.Pass(nil, key, as.Pos(), fmt.Sprintf("%d read(s) beyond the first element, each where the number of elements exceeds the index", nacc))
+					}
+					return true
+				})
+			})
+		},
 	})
 }
